@@ -45,6 +45,11 @@ CLAIMS = {
          "NOT modelled (named): serde_json's tokenizer and float printing/parsing, UTF-8 validation -- exercised by the correspondence: every generated message goes through the real from_str -> to_string -> from_str and the text is compared byte for byte with the extracted model's print(enc(dec)); a quarter of the inputs are malformed and the model's decoder must accept/reject like serde's derive.",
          "Trusted: Coq kernel (no axioms), extraction, OCaml JSON text parser (glue), the hand-written model Model/Codec.v of the derive(Serialize, Deserialize) semantics (tie = byte-exact correspondence on every run). Numbers above u64::MAX / floats are not generated as literals the model would have to re-print.",
          "Coq round-trip proofs per message type + byte-exact differential check against serde"),
+ "C15": ("Theorems: the containment decided by auth.rs::pattern_matches is sound for each relation by which a served request selects keys -- C15_sound_doc, C15_sound_store, C15_sound_sub (any granted well-formed pattern g, any requested pattern r, any key, any depth), C15_sound_key (literal keys), C15_authorize (served iff some grant of that privilege contains the request), C15_table_total (every request kind that returns/changes/removes keys is checked; only spub, unsubscribe, unsubscribeLs, the handshake messages are not). "
+         "Correspondence: real pattern_matches vs model for every pattern pair over {a,b,?,#} to depth 3 (quick) / 4 (thorough) + sampled pairs with empty/unicode segments; brute-force containment oracle over keys to depth 5 under all three relations as failing-input search; JwtClaims::authorize on random grant sets. "
+         "PARTIAL: token validation (jsonwebtoken: signature, expiry) is trusted; 'no request is served before a valid token' and the privilege/pattern table per request kind are properties of the session handler, modelled in Model/Auth.v auth_requirement but validated only through the session engine.",
+         "Trusted: Coq kernel (no axioms), extraction, glue, Model/Auth.v (tie: exhaustive differential check through the `verif` re-export of auth::pattern_matches).",
+         "Coq soundness proofs of the containment + exhaustive differential check + brute-force oracle"),
 }
 def chk(pid, text, note, technique):
     return {"property_id": pid, "quick_cmd": f"./wv check {pid} --tier quick", "thorough_cmd": f"./wv check {pid} --tier thorough",
